@@ -41,6 +41,8 @@ pub fn make_case_scaled(r: &mut rand::rngs::StdRng, k: usize, nenv: usize, safet
     let from: Joints = [-3.0, -1.7, -1.0, -3.4, -2.0, if k % 4 == 2 { -1.0 } else { -6.0 }];
     let mut to: Joints = [3.0, 1.9, 1.1, 3.4, 2.0, 6.0];
     let mut from = from;
+    // (one case in seven has limits of nearly two turns on every joint, so that all eight branches are legal)
+    if k % 7 == 3 && j1_limits.is_none() { from = [-6.0; 6]; to = [6.0; 6]; }
     if let Some((a, b)) = j1_limits { from[0] = a; to[0] = b; }
     let reference = Robot::new(p, vec![LayerF::Tool(tool_iso), LayerF::Base(base_iso)], Some((from, to, 0.0)));
     let q_lay: Joints = [0.0, 0.2, 0.1, 0.0, 0.9, 0.0];
@@ -93,7 +95,8 @@ pub fn make_case_scaled(r: &mut rand::rngs::StdRng, k: usize, nenv: usize, safet
             to_environment: if safety_margin { 0.07 } else { 0.0 },
             to_robot_default: if safety_margin { 0.005 } else { 0.0 },
             special_distances: special,
-            mode: if k % 4 == 1 { CheckMode::FirstCollisionOnly } else { CheckMode::AllCollsions },
+            // (one case in eleven has collision checking switched off altogether: nothing collides then)
+            mode: if k % 11 == 7 { CheckMode::NoCheck } else if k % 4 == 1 { CheckMode::FirstCollisionOnly } else { CheckMode::AllCollsions },
         };
         (KinematicsWithShape::with_safety(p, constraints, joint_meshes, base_mesh, base_na, tool_mesh, tool_iso.to_na(), env, safety), "with_safety")
     };
@@ -107,21 +110,46 @@ pub fn record(output: &str) {
     let n = if thorough() { 1500 } else { 90 };
     let nano = |x: f64| -> i64 { if x.is_finite() { (x * 1e9).round().min(2e9) as i64 } else { 2_000_000_000 } };
     for k in 0..n {
-        let case = make_case(&mut r, k, if k % 3 == 2 { 0 } else { 2 + k % 4 }, k % 5 == 4);
-        let kws = &case.kws;
-        for rep in 0..4 {
+        // (one cell in six is crowded: 18 to 21 environment objects)
+        let nenv = if k % 3 == 2 { 0 } else if k % 6 == 4 { 18 + k % 4 } else { 2 + k % 4 };
+        let mut case = make_case(&mut r, k, nenv, k % 5 == 4);
+        let checking = case.kws.body.safety.mode != CheckMode::NoCheck;
+        let mut reconfigured = false;
+        // rep 4 repeats the pose of rep 0 after the cell was re-configured through the public fields of the body
+        let mut pose0: Option<(Joints, Joints)> = None;
+        for rep in 0..5 {
+            if rep == 4 {
+                // an obstacle at the tool of the first free answer of the earlier query (even cases), or a safety
+                // margin of 25 cm towards the environment (odd cases)
+                let Some((q0, _)) = pose0 else { continue };
+                let free: Vec<Joints> = case.kws.kinematics.inverse(&case.reference.ofk(&q0).to_na()).into_iter().filter(|a| !case.kws.collides(a)).collect();
+                let Some(a) = free.first() else { continue };
+                if k % 2 == 0 {
+                    let tcp = case.kws.kinematics.forward(a).translation.vector;
+                    let b = WBox { c: [tcp.x, tcp.y, tcp.z], h: [0.1, 0.1, 0.1] };
+                    let pose = nalgebra::Isometry3::identity();
+                    case.kws.body.collision_environment.push(CollisionBody { mesh: scene::local_mesh(&b, false, &pose), pose: pose.cast() });
+                } else {
+                    case.kws.body.safety.to_environment = 0.25;
+                }
+                reconfigured = true;
+            }
+            let kws = &case.kws;
             let mut q: Joints = std::array::from_fn(|i| r.gen_range(case.from[i] * 0.8..case.to[i] * 0.8));
+            if rep == 0 { pose0 = Some((q, q)); }
+            if rep == 4 { q = pose0.unwrap().0; }
             // rep 2: almost (not exactly) wrist singular with previous = the current position (the continuation returns
             // near-identical neighbours); rep 3: the CONSTRAINT_CENTERED sentinel
-            if rep == 2 { q[4] = 10f64.powf(r.gen_range(-7.0..-5.0)); }
+            if rep == 2 { q[4] = 10f64.powf(r.gen_range(-7.0..-3.8)); }
             let want = case.reference.ofk(&q);
             let pose = want.to_na();
             let prev: Joints = if rep == 2 { q } else if rep == 3 { rs_opw_kinematics::kinematic_traits::CONSTRAINT_CENTERED } else { std::array::from_fn(|i| q[i] + r.gen_range(-0.1..0.1)) };
             for entry in ["inverse", "inverse_continuing", "inverse_5dof", "inverse_continuing_5dof"] {
                 // 5-DOF entries presuppose an axial tool: only for the axial-tool cases
                 if entry.contains("5dof") && k % 2 != 0 { continue; }
+                let pool = 1 + (k * 5 + rep * 3) % 16;
                 let inner = solver::call(kws.kinematics.as_ref(), entry, &pose, &prev, q[5]);
-                let outer = solver::call(kws, entry, &pose, &prev, q[5]);
+                let outer = in_pool(pool, || solver::call(kws, entry, &pose, &prev, q[5]));
                 let (Some(inner), Some(outer)) = (inner, outer) else {
                     out.put(json!({"ev": "shape", "outcome": "panic", "entry": entry, "ctor": case.ctor}));
                     continue;
@@ -151,7 +179,8 @@ pub fn record(output: &str) {
                 out.put(json!({"ev": "shape", "outcome": "ok", "entry": entry, "ctor": case.ctor, "case": k,
                     "inner": inner.iter().map(au6).collect::<Vec<_>>(), "outer": outer.iter().map(au6).collect::<Vec<_>>(),
                     "collides": coll, "collides_body": coll_body, "outer_exact_subsequence": is_subsequence(&outer, &inner, &coll),
-                    "fwd_n": nano(f.dpos(&want).max(f.drot(&want))), "links_n": nano(link_err), "limits_same": lim_same, "sing_same": sing_same, "positioned_ok": pos_ok, "rep": rep}));
+                    "fwd_n": nano(f.dpos(&want).max(f.drot(&want))), "links_n": nano(link_err), "limits_same": lim_same, "sing_same": sing_same, "positioned_ok": pos_ok, "rep": rep,
+                    "checking": checking, "reconfigured": reconfigured, "pool": pool, "nenv": kws.body.collision_environment.len()}));
             }
         }
     }
